@@ -28,6 +28,7 @@ def run(check: Check, repo: Repo, tier: str) -> None:
     n = L.pop_guard(check, repo)
     check.floor("POP-GUARD", 4, "zero-argument pops in visit()")
     L.sentinel_twins(check, repo)
+    L.edit_sentinel(check, repo)
     # controls
     from sa.report import Check as _C
     fx = fixture("pop_controls")
